@@ -111,3 +111,68 @@ def compare_renders(cases):
             mism.append({"case": c["id"], "prog": c["prog"], "opts": {"v": r["v"], "p": r["p"], "named": r["named"]},
                          "impl": decode_obs(o), "model": decode_obs(a), "dump": c["dump"]})
     return len(reqs), mism, dfail
+
+
+# ---------------------------------------------------------------------------------------------------
+# cross-check of extraction: the same requests evaluated inside the kernel (vm_compute) must give the answers
+# of the extracted OCaml program
+
+def _sexp_to_coq(text):
+    """request text -> Coq term of type sexp (atoms never contain quotes or backslashes: strings travel as hex)"""
+    out, i, n = [], 0, len(text)
+    stack = [[]]
+    while i < n:
+        ch = text[i]
+        if ch in " \t":
+            i += 1
+        elif ch == "(":
+            stack.append([])
+            i += 1
+        elif ch == ")":
+            items = stack.pop()
+            stack[-1].append("SList [" + "; ".join(items) + "]")
+            i += 1
+        else:
+            j = i
+            while j < n and text[j] not in " \t()":
+                j += 1
+            atom = text[i:j]
+            if '"' in atom or "\\" in atom:
+                raise ValueError("atom not representable")
+            stack[-1].append('SAtom "' + atom + '"')
+            i = j
+    return stack[0][0]
+
+
+def kernel_crosscheck(pairs, tag):
+    """pairs: [(request text, answer of bin/model)].  Returns (ok, detail)."""
+    import os
+    os.makedirs(build.WORK, exist_ok=True)
+    path = os.path.join(build.WORK, f"xcheck_{tag}_{os.getpid()}.v")
+    items = []
+    for req, ans in pairs:
+        if '"' in ans:
+            continue
+        try:
+            items.append(f"({_sexp_to_coq(req)}, \"{ans}\")")
+        except ValueError:
+            continue
+    body = ("From Coq Require Import String List.\nFrom QRB Require Import Model.Sexp Model.Driver.\nImport ListNotations.\n"
+            "Local Open Scope string_scope.\n"
+            "Definition cases : list (sexp * string) := [\n " + ";\n ".join(items) + "].\n"
+            "Definition bad := filter (fun p => negb (String.eqb (handle (fst p)) (snd p))) cases.\n"
+            "Definition n_bad := Eval vm_compute in length bad.\nPrint n_bad.\n")
+    with open(path, "w") as f:
+        f.write(body)
+    rc, out, dt = build.sh(["coqc", "-Q", build.COQ, "QRB", path], cwd=build.WORK, timeout=1500)
+    for ext in (".v", ".vo", ".vok", ".vos", ".glob"):
+        try:
+            os.unlink(path[:-2] + ext)
+        except OSError:
+            pass
+    try:
+        os.unlink(os.path.join(build.WORK, "." + os.path.basename(path)[:-2] + ".aux"))
+    except OSError:
+        pass
+    ok = rc == 0 and "n_bad = 0" in out.replace("\n", " ")
+    return ok, len(items), (out[-600:] if not ok else f"{len(items)} requests, {dt:.0f}s")
